@@ -12,8 +12,14 @@ import time
 from pathlib import Path
 
 ROOT = Path(__file__).resolve().parent.parent
-COQ = ROOT / "coq"
-REPO = Path(os.environ.get("VERIF_REPO", "/repo"))
+REPO = Path(os.path.realpath(os.environ.get("VERIF_REPO", "/repo")))
+# A tree other than /repo (a mutant in a scratch worktree) gets its own copy of the Coq development, so that
+# regenerated Gen/*.v files and rebuilt .vo files never disturb checks of /repo running at the same time.
+if str(REPO) == "/repo":
+    COQ = ROOT / "coq"
+else:
+    import hashlib as _h
+    COQ = ROOT / "build" / ("coq-" + _h.sha1(str(REPO).encode()).hexdigest()[:10])
 PY = "/venv/bin/python"
 
 TYPE2COQ = {
